@@ -11,32 +11,36 @@
    the settings have the rule switched on. *)
 From Coq Require Import ZArith List Bool String.
 From QF Require Import Base.Res Base.Bytes Dict.Xml Dict.Build Dict.Validate Dict.ValidateSpec Dict.ValidateInst
-  Dict.ValidateProofs Dict.ValidateExamples.
+  Dict.ValidateProofs Dict.ValidateGroups Dict.ValidateAccepts Dict.ValidateShipped Dict.ValidateExamples Gen.Dicts.Index.
 Import ListNotations.
 Open Scope string_scope.
 Open Scope list_scope.
 Open Scope Z_scope.
 
-(* FULL STATEMENT (not proved):
-     forall app tr s m mt tdd add, vm_msg_type m = Some mt -> c15_config app tr mt tdd add -> wf_dict tdd add ->
-       c15_conforms s tdd add m = true -> validate s app tr m = Ok None.
-   PROVED: the same for messages without repeating-group instances ([c15_no_groups]); no condition on the
-   dictionary is needed there.  MISSING: the delimiter-driven walk of validateVisitGroupField against the
-   count-driven group specification (needs side conditions on the dictionary: member tags of a group distinct
-   from each other and from the tags that may follow the group); validated by the `validate` correspondence
-   stream only (all message types of the shipped dictionaries, groups nested up to the dictionaries' depth). *)
-Theorem c15_accepts_partial : forall app tr s m mt tdd add,
+(* A message that conforms to the configured dictionaries (under the settings) is accepted -- all messages, repeating
+   groups nested to any depth included.  [c15_wf_defsb tdd md]: every group of the header, trailer and message
+   definition lists each member tag once (true of every message of every shipped dictionary: c15_shipped_wf). *)
+Theorem c15_accepts : forall app tr s m mt tdd add md,
   vm_msg_type m = Some mt -> c15_config app tr mt tdd add ->
-  c15_conforms s tdd add m = true -> c15_no_groups tdd add m ->
+  dict_bget mt (dd_messages add) = Some md -> c15_wf_defsb tdd md = true ->
+  c15_conforms s tdd add m = true ->
   validate s app tr m = Ok None.
-Proof. exact (v_accepts_no_groups v_rd_bool v_rd_timestamp v_rd_float). Qed.
+Proof. exact (v_accepts v_rd_bool v_rd_timestamp v_rd_float). Qed.
 
 Example c15_accepts_hypotheses :
-  c15_config (Some v_ex_dict) None (B "P") v_ex_dict v_ex_dict /\
-  c15_conforms v_ex_settings v_ex_dict v_ex_dict v_ex_plain = true /\
-  c15_no_groups v_ex_dict v_ex_dict v_ex_plain /\
-  validate v_ex_settings (Some v_ex_dict) None v_ex_plain = Ok None.
-Proof. exact v_ex_plain_hyp. Qed.
+  c15_config (Some v_ex_dict) None (B "X") v_ex_dict v_ex_dict /\
+  (exists md, dict_bget (B "X") (dd_messages v_ex_dict) = Some md /\ c15_wf_defsb v_ex_dict md = true) /\
+  c15_conforms v_ex_settings v_ex_dict v_ex_dict v_ex_group_ok = true.
+Proof. exact v_ex_group_hyp. Qed.
+
+(* the hypothesis c15_wf_defsb on the shipped dictionaries (generated terms, loaded by the model of the loader):
+   any of them as transport dictionary with any of them as application dictionary *)
+Theorem c15_shipped_wf : forall nd d, In nd gen_dicts_shipped -> dict_build (snd nd) = Ok d -> c15_dict_wfb d = true.
+Proof. exact ValidateShipped.c15_shipped_wf. Qed.
+
+Theorem c15_wf_of_dicts : forall tdd add mt md, c15_dict_wfb tdd = true -> c15_dict_wfb add = true ->
+  dict_bget mt (dd_messages add) = Some md -> c15_wf_defsb tdd md = true.
+Proof. exact c15_dict_wfb_defs. Qed.
 
 (* unknown MsgType: 11, no reference tag *)
 Theorem c15_defect_msgtype : forall app tr s m mt tdd add,
@@ -169,7 +173,8 @@ Example c15_defects_on_an_instance :
     = Ok (Some (RR_TAG_SPECIFIED_OUT_OF_REQUIRED_ORDER, Some 35)).
 Proof. exact v_ex_mutants. Qed.
 
-(* GROUP DEFECTS (required member of an entry missing, wrong NumInGroup, members out of order): no general theorem;
+(* GROUP DEFECTS (required member of an entry missing, wrong NumInGroup, members out of order): no general defect theorem
+   (c15_accepts covers the acceptance of well-formed groups);
    the `validate` correspondence stream compares model and code on them and its spec predicate requires every
    message that does not conform to be rejected (sig=nonconforming-accepted:<kind>).  That predicate found the
    defect repaired in /repo commit "required group member missing in a non-final entry is accepted"; the instance
